@@ -359,6 +359,7 @@ let run_spec line =
       | 'I' -> let lab = next () in let u = next () in let ti = next () in IRefImage (hexs body, hexs lab, hexs u, opt ti)
       | 'F' -> IFoot (nat_of_int (int_of_string body))
       | 's' -> ISoft
+      | 'G' -> ITight (inls ())
       | _ -> failwith ("bad inline " ^ t) in
     let lines () = let acc = ref [] in while peek () <> ";" do acc := hexs (next ()) :: !acc done; ignore (next ()); List.rev !acc in
     let group f = if next () <> "(" then failwith "( expected"; let acc = ref [] in while peek () <> ")" do acc := f () :: !acc done; ignore (next ()); List.rev !acc in
